@@ -419,7 +419,7 @@ func genEntry(r *rng, tier string) interface{} {
 			in.Env["COMP_LINE"] = line
 			in.Env["COMP_POINT"] = pick(r, []string{"-1", "0", "1", "-0", "+3", "99999", "abc", "", "9223372036854775808", "-9223372036854775808", " 3", "3 ", "0x3", "1e2", itoa(r.intn(len(line) + 2))})
 		case 2:
-			in.Env["COMP_LINE"] = pick(r, []string{"", " ", "|", "a |", "a | ", "a >", "a > ", "a >x", `a "`, `a '`, `a \`, "a;", "a &&", `a "b c`, `\xff`, "a \xe6", "a 2>", "a $(", "a `", "a b c d e f"}) + pick(r, []string{"", " ", "x"})
+			in.Env["COMP_LINE"] = pick(r, []string{"", " ", "|", "a |", "a | ", "a >", "a > ", "a >x", "& >> ", "&", "a & ", "a | > x", "; >", "a && 2> ", ">", ">> ", "a ; > x ", `a "`, `a '`, `a \`, "a;", "a &&", `a "b c`, `\xff`, "a \xe6", "a 2>", "a $(", "a `", "a b c d e f"}) + pick(r, []string{"", " ", "x"})
 			in.Env["COMP_POINT"] = itoa(r.intn(12))
 		case 3:
 			in.Env["COMP_LINE"] = line + pick(r, []string{" > ", " >", " | ", " 2> x", ` "`, ` '`, " \\"})
@@ -440,7 +440,9 @@ func genEntry(r *rng, tier string) interface{} {
 		}
 	}
 	if r.chance(25) || in.Ancestor == "cmd" {
-		in.Env["CARAPACE_COMPLINE"] = pick(r, []string{line, line + " ", "", " ", `a "`, "a |", "a | b ", `\xff`, line + ` "x`, "a > "})
+		in.Env["CARAPACE_COMPLINE"] = pick(r, []string{line, line + " ", "", " ", `a "`, "a |", "a | b ", `\xff`, line + ` "x`, "a > ",
+			// lines whose current pipeline has no word of the command: only an operator, only a redirect
+			"& >> ", "&", "a & ", "a | > x", "; >", "a && 2> ", ">", ">> ", "a ; > x ", "|", "a |", "a | "})
 	}
 	if r.chance(25) {
 		in.Env["CARAPACE_MATCH"] = pick(r, []string{"0", "1", "CASE_INSENSITIVE", "", "2", "x", "-1"})
